@@ -69,8 +69,10 @@ def main(ctx, replay=None):
             tu = float(rng.choice([50.0, 50.0, 12.5, 0.25]))
             if tu != 50.0 and t0 != 0.0:
                 t0 = 0.5
+            # pressure unit: 2.5 GPa per model unit, or steps with three decimals (DELTA_P = 0.125, 0.025)
+            pu = float(rng.choice([2.5, 2.5, 0.0625, 0.0125]))    # (grids are in doubled model units: steps of 0.125 and 0.025 GPa)
             tv = [t0 + tu * x for x in ts]
-            pv = [p0 + 2.5 * x for x in ps]
+            pv = [p0 + pu * x for x in ps]
             # the abstract variables a, b, c are realised by output names of a real run; names that are prefixes of other names
             # (bm_V / bm_VRH, G_V / G_VRH, v / v_p / v_s) are part of "each requested variable"
             VARNAME = {"a": str(rng.choice(["c11s", "c12t", "c44s"])), "b": str(rng.choice(["bm_VRH", "bm_V", "G_V", "G_R"])), "c": str(rng.choice(["v", "v_s"]))}
@@ -85,9 +87,9 @@ def main(ctx, replay=None):
                     write_table(d / f"{name}_tp_{suf}", tv, pv, lambda i, j, t, p: -1.0)
                     if rng.random() < 0.3:
                         write_table(d / f"{name}_tv_{suf}", tv, pv, lambda i, j, t, p: -2.0)
-            want = (t0 + tu * req) if mode == "T" else (p0 + 2.5 * req)
+            want = (t0 + tu * req) if mode == "T" else (p0 + pu * req)
             args = ["-v", ",".join(VARNAME[v] for v in vs), "-T" if mode == "T" else "-P", repr(want)]
-            case = {"mode": mode, "ts": ts, "ps": ps, "req": req, "vars": vs}
+            case = {"mode": mode, "ts": ts, "ps": ps, "req": req, "vars": vs, "units": [tu, pu]}
             ctx.count(case)
             with cwd(d):
                 r = CliRunner().invoke(extract_main, args)
@@ -161,10 +163,11 @@ def geotherm(ctx, rng, tmp, geo_main):
     f = lambda t, p: 300.0 + 0.02 * t + 1.5 * p + 1e-5 * t * p + 40.0 * numpy.sin(t / 900.0) * numpy.cos(p / 40.0)
     g2 = lambda t, p: 80.0 - 0.01 * t + 0.9 * p + 5.0 * numpy.cos(t / 700.0 + p / 55.0)
     errs = []
-    for res_i, (nt, npp) in enumerate(((9, 9), (17, 17), (13, 13))):
+    # (fourth pass: a table as long as a fine pressure grid makes it - 0 ... 120.25 GPa in steps of 0.25 GPa - node identity only)
+    for res_i, (nt, npp) in enumerate(((9, 9), (17, 17), (13, 13), (13, 482))):
         d = Path(tempfile.mkdtemp(dir=tmp))
         tv = numpy.linspace(300.0, 2700.0, nt)
-        pv = numpy.linspace(0.0, 120.0, npp)
+        pv = numpy.linspace(0.0, 120.0, npp) if npp < 100 else 0.25 * numpy.arange(npp)
         write_table(d / "c11s_tp_gpa.txt", tv, pv, lambda i, j, t, p: f(t, p))
         # the second variable: G_VRH, or a name that is a prefix of other files of a real output directory (G_V / G_VRH, bm_V / bm_VRH)
         var2 = "G_VRH" if res_i == 0 else str(rng.choice(["G_V", "bm_V"]))
@@ -176,6 +179,8 @@ def geotherm(ctx, rng, tmp, geo_main):
         # geotherm: grid nodes first, then off-node points; an extra column must pass through
         nodes = [(int(i), int(j)) for i, j in zip(rng.integers(0, nt, 5), rng.integers(0, npp, 5))]
         nodes[0], nodes[1], nodes[2] = (nt - 1, npp - 1), (0, 0), (nt - 1, int(rng.integers(0, npp)))      # corners and the last row
+        if npp >= 100:
+            nodes[3], nodes[4] = (int(rng.integers(0, nt)), npp - 1), (int(rng.integers(0, nt)), 2 * int(rng.integers(0, npp // 2)) + 1)   # last and an odd column
         offp = rng.uniform(5.0, 115.0, 8)
         offt = rng.uniform(400.0, 2600.0, 8)
         whole = res_i == 2          # third pass: a geotherm file whose numbers are all written without a decimal point (1500 37 660)
@@ -210,6 +215,11 @@ def geotherm(ctx, rng, tmp, geo_main):
                     ctx.violation(f"extract-geotherm at the grid node (T={tv[i]}, P={pv[j]}) returns {vals[k, col]} for {name}, the table entry is {fn(tv[i], pv[j])}",
                                   {"node": [int(i), int(j)]}, {"clause": "geotherm_node", "var": name})
         err = max(float(numpy.max(numpy.abs(vals[5:, 3] - f(numpy.array(offt), numpy.array(offp))))), 1e-12)
+        if npp >= 100:
+            if errs and not err <= max(errs[0], 2e-3):
+                ctx.violation(f"extract-geotherm on a {nt} x {npp} table: off-node error {err:.3g} exceeds the {errs[0]:.3g} of the 9 x 9 grid",
+                              {"error": err, "coarse": errs[0]}, {"clause": "geotherm_long_table"})
+            continue
         if whole:
             # same smooth function on a grid between the two above: the error lies below that of the coarser one
             if errs and not err <= max(errs[0], 2e-3):
@@ -217,6 +227,6 @@ def geotherm(ctx, rng, tmp, geo_main):
                               {"error": err, "coarse": errs[0]}, {"clause": "geotherm_whole_numbers"})
             continue
         errs.append(err)
-    if len(errs) == 2 and not errs[1] <= max(errs[0] / 2.0, 2e-3):
+    if len(errs) >= 2 and not errs[1] <= max(errs[0] / 2.0, 2e-3):
         ctx.violation(f"extract-geotherm does not converge under grid refinement: error {errs[0]:.3g} -> {errs[1]:.3g}", {"errors": errs}, {"clause": "geotherm_convergence"})
     ctx.cov["geotherm_errors"] = errs
